@@ -172,6 +172,14 @@ func c20a(c *Ctx) {
 				}})
 				c.Check(!noPop, fmt.Sprintf("%s/body#%d-popped", key, i), c.W.Pos(b.Pos()), "scope popped on every successful path after the body", "a successful return can be reached after the body parse without popping the "+k+" stack (the scope would leak into following statements)")
 			}
+			// whatever is parsed in between: a push is matched by a pop on every successful path
+			for i, pc := range pushes {
+				_, leak := existsPath(pathQuery{from: after(pc.(ssa.Instruction)), avoid: isPop, edgeOK: notErrorEdge, target: func(in ssa.Instruction) bool {
+					r, ok := in.(*ssa.Return)
+					return ok && isSuccessReturn(r)
+				}})
+				c.Check(!leak, fmt.Sprintf("%s/push#%d-popped", key, i), c.W.Pos(pc.Pos()), "every successful path after the push pops the scope again", "a successful return can be reached after pushing the "+k+" scope without popping it (the scope would leak into following statements)")
+			}
 			// exactly one pop per push on successful paths: no path pop -> pop without push in between
 			for _, pc := range callsToIn(fn, pop) {
 				_, twice := existsPath(pathQuery{from: after(pc.(ssa.Instruction)), target: isPop, avoid: isPush})
